@@ -62,6 +62,56 @@ def W6():
     ]
 
 
+def vandalize_helpers(R, C):
+    """What a caller does to the objects the public helpers hand out is its own business: request the index
+    dictionary and the well-ID array of an R x C plate and overwrite them.  Later results must not change."""
+    from ..world import rt
+
+    d, a = rt.make_well_index_dict(R, C), rt.make_well_array(R, C)
+    d.clear()
+    d["A01"] = (R - 1, C - 1)
+    d["Z99"] = (0, 0)
+    a[...] = "X00"
+
+
+LIFETIME_ROWS = [2, 3, 4, 6, 8, 5]
+
+
+def lifetime_scenario(worklists, wells, check, rounds=16, pool_size=6):
+    """Worklist objects that outlive the labware they were used with.  Every round builds `pool_size` pairs of
+    labware "S" (plate or trough) / "D" (plate) whose row counts rotate from round to round, transfers 10 uL
+    between the given wells on every worklist, hands the records to check(records_by_worklist, geo_S, geo_D)
+    and drops the labware, so that later labware objects re-use their memory.  Returns the first problem or None.
+    (Deterministic for code that holds the property; for code that keys hidden state on object identity the
+    round in which it shows depends on memory re-use, which is why the description names no round.)"""
+    from ..ref.numbering import Geo
+    from ..world import rt
+
+    for i in range(rounds):
+        pool = []
+        for k in range(pool_size):
+            R = LIFETIME_ROWS[(i + k) % len(LIFETIME_ROWS)]
+            is_trough = (i + k) % 2 == 1
+            if is_trough:
+                s = rt.Trough("S", R, 3, min_volume=0, max_volume=1e6, initial_volumes=[1000, 1000, 1000])
+            else:
+                s = rt.Labware("S", R, 3, min_volume=0, max_volume=1e6, initial_volumes=1000)
+            d = rt.Labware("D", R, 3, min_volume=0, max_volume=1e6)
+            pool.append((s, d, Geo("S", "trough" if is_trough else "plate", R, 3), Geo("D", "plate", R, 3)))
+        for s, d, gs, gd in pool:
+            recs = {}
+            for name, wl in worklists.items():
+                del wl[:]
+                wl.transfer(s, wells, d, wells, 10)
+                recs[name] = list(wl)
+                del wl[:]
+            problem = check(recs, gs, gd)
+            if problem:
+                return problem
+        del pool, s, d
+    return None
+
+
 def callers_arrays_unchanged(W, config):
     """arrays the 'caller' handed to the constructors (spec np=True / share=tag) still hold the initial values"""
     bad = []
@@ -272,9 +322,9 @@ class BaseB:
                             break
                     if seq is None:
                         seq = list(prev) + [case]  # the whole history of this chunk
-                    st.case(outcome + ":order-dependent", {"seq": seq}, key)
+                    st.case(outcome + ":order-dependent", {"$seq": seq}, key)
                     for clause, detail in viol:
-                        st.violation(clause + "/order-dependent", {"seq": seq}, f"only after {len(seq) - 1} earlier call(s) in the same process: {detail}")
+                        st.violation(clause + "/order-dependent", {"$seq": seq}, f"only after {len(seq) - 1} earlier call(s) in the same process: {detail}")
                     clear_caches()
                     for c in prev:
                         self.one(c)
@@ -287,10 +337,10 @@ class BaseB:
 
     def replay(self, case):
         clear_caches()
-        if isinstance(case, dict) and "seq" in case:
-            for c in case["seq"][:-1]:
+        if isinstance(case, dict) and "$seq" in case:
+            for c in case["$seq"][:-1]:
                 self.one(c)
-            outcome, key, viol = self.one(case["seq"][-1])
+            outcome, key, viol = self.one(case["$seq"][-1])
             return [[c + "/order-dependent", str(d)] for c, d in viol]
         outcome, key, viol = self.one(case)
         return [[c, str(d)] for c, d in viol]
